@@ -3,6 +3,7 @@ package checks
 import (
 	"encoding/json"
 	"fmt"
+	"math/big"
 	"reflect"
 	"strings"
 
@@ -316,6 +317,43 @@ func c07Exec(c *engine.Ctx, cs c07Case) {
 		c.Count("feature_roundtrips", 1)
 		c.DistinctStr(string(data))
 		c.Sample(cs.Mode, 2, string(data))
+	case "numid":
+		fail := func(what, desc string) { c.Violate("numeric-id/"+what, fmt.Sprintf("%s; id literal %s", desc, cs.Doc), "c07", cs) }
+		doc := `{"type":"Feature","id":` + cs.Doc + `,"geometry":{"type":"Point","coordinates":[1,2]},"properties":null}`
+		var f, f2 geojson.Feature
+		var err error
+		var again []byte
+		if p, _ := engine.Guard(func() {
+			err = json.Unmarshal([]byte(doc), &f)
+			if err == nil {
+				again, err = json.Marshal(&f)
+			}
+			if err == nil {
+				err = json.Unmarshal(again, &f2)
+			}
+		}); p != nil {
+			fail("panic", fmt.Sprintf("panic %v", p))
+			return
+		}
+		if err != nil {
+			fail("error", err.Error())
+			return
+		}
+		want, ok := new(big.Rat).SetString(cs.Doc)
+		got, ok2 := new(big.Rat).SetString(f.ID)
+		if !ok || !ok2 || want.Cmp(got) != 0 {
+			fail("value", fmt.Sprintf("id read as %q, which is not the number %s", f.ID, cs.Doc))
+			return
+		}
+		if want.IsInt() && want.Num().BitLen() <= 53 && f.ID != want.Num().String() {
+			fail("integer-text", fmt.Sprintf("integer id read as %q, want %q", f.ID, want.Num().String()))
+			return
+		}
+		if f2.ID != f.ID {
+			fail("unstable", fmt.Sprintf("id %q became %q after another round trip", f.ID, f2.ID))
+			return
+		}
+		c.Count("numeric_ids", 1)
 	case "doc":
 		fail := func(what, desc string) { c.Violate("doc/"+cs.Kind+"/"+what, fmt.Sprintf("%s; document %q", desc, cs.Doc), "c07", cs) }
 		wf := func(t geom.T) string {
@@ -412,6 +450,11 @@ func c07Run(c *engine.Ctx) {
 				}
 			}
 		}
+	}
+	// numeric ids: a JSON number id must come back as the decimal text of that number
+	// (integers as plain integers), and survive a further round trip unchanged
+	for _, num := range []string{"0", "1", "10", "-3", "999999", "1000000", "123456789012", "9007199254740991", "1.5", "0.25", "0.00001", "1e3", "1e21", "12345678.125"} {
+		c07Exec(c, c07Case{Mode: "numid", Doc: num})
 	}
 	// (c) totality: grammar-directed documents
 	types := []string{`"Point"`, `"LineString"`, `"Polygon"`, `"MultiPoint"`, `"MultiLineString"`, `"MultiPolygon"`, `"GeometryCollection"`, `"Feature"`, `"FeatureCollection"`, `"Unknown"`, `5`, `null`, ``}
